@@ -428,6 +428,16 @@ def resource_api(r):
             for nm, num, typ in (("codec", 93, "library.example.com/Codec"), ("blob", 94, "library.example.com/Blob")):
                 f = tgt.field.add(); f.name, f.number, f.label, f.type = nm, num, 1, 9
                 f.options.Extensions[resource_pb2.resource_reference].type = typ
+    if r.random() < 0.7:
+        # an rpc whose RESPONSE is itself a resource message that embeds another resource message reached by nothing else
+        # (and one more level: a resource inside a plain message inside that resource)
+        gem = api.main.message("InnerGem"); gem.field("name", 1, "string"); gem.resource("library.example.com/InnerGem", ["innerGems/{inner_gem}"])
+        speck = api.main.message("GemSpeck"); speck.field("name", 1, "string"); speck.resource("library.example.com/GemSpeck", ["innerGems/{inner_gem}/specks/{gem_speck}"])
+        wrap = api.main.message("GemWrap"); wrap.field("speck", 1, speck.fqn)
+        box = api.main.message("OuterBox"); box.field("name", 1, "string").field("gem", 2, gem.fqn).field("wrap", 3, wrap.fqn)
+        box.resource("library.example.com/OuterBox", ["outerBoxes/{outer_box}"])
+        gq = api.main.message("GetOuterBoxRequest"); gq.field("name", 1, "string")
+        r.choice(api.services).rpc("GetOuterBox", gq.fqn, box.fqn, http=("get", "/v1/{name=outerBoxes/*}"), sigs=["name"])
     api.extra = []
     if r.random() < 0.6:
         # resources DECLARED in a dependency package's file (not generated), reached only through references
